@@ -202,10 +202,14 @@ func recFieldDescriptors(v reflect.Value, path string, fds *[]FieldDescriptor) {
 
 			switch fieldValue.Kind() {
 			case reflect.Ptr:
-				// create a new field
-				fieldValue = reflect.New(structField.Type.Elem())
-				recFieldDescriptors(fieldValue, joinFieldPath(path, structField.Name), fds)
-				continue
+				// a pointer to a structure is followed, any other pointer
+				// is a field like another and has its constraints
+				if structField.Type.Elem().Kind() == reflect.Struct {
+					// create a new field
+					fieldValue = reflect.New(structField.Type.Elem())
+					recFieldDescriptors(fieldValue, joinFieldPath(path, structField.Name), fds)
+					continue
+				}
 			case reflect.Struct:
 				// don't treat struct time.Time as a struct
 				if !fieldValue.Type().AssignableTo(timeType) {
